@@ -120,7 +120,7 @@ def sym_local(fn, l, depth=0):
     if k in ('ref', 'rawptr'):
         return ('ref', sym_place(fn, rv['place'], depth + 1))
     if k == 'cast':
-        return ('cast', sym(fn, rv['op'], depth + 1), rv['to'])
+        return ('cast', sym(fn, rv['op'], depth + 1), rv['to'], rv.get('from'))
     if k == 'binop':
         a, b = sym(fn, rv['l'], depth + 1), sym(fn, rv['r'], depth + 1)
         if rv['op'].endswith('WithOverflow'):
